@@ -19,6 +19,7 @@ pub mod c08;
 pub mod c08_full;
 pub mod c09;
 pub mod c10;
+pub mod c11;
 pub mod c12;
 pub mod c15;
 
@@ -40,6 +41,7 @@ pub fn registry() -> Vec<Prop> {
         Prop { id: "C08", run: c08::run, replay: c08::replay, rule: c08::RULE, full: true },
         Prop { id: "C09", run: c09::run, replay: c09::replay, rule: c09::RULE, full: false },
         Prop { id: "C10", run: c10::run, replay: c10::replay, rule: c10::RULE, full: false },
+        Prop { id: "C11", run: c11::run, replay: c11::replay, rule: c11::RULE, full: false },
         Prop { id: "C12", run: c12::run, replay: c12::replay, rule: c12::RULE, full: false },
         Prop { id: "C15", run: c15::run, replay: c15::replay, rule: c15::RULE, full: false },
     ];
